@@ -59,7 +59,9 @@ D_FMT = [
 D_WRAPVM = [d_tlc("MC_WrapVM: register machine, all programs of <= 3 steps on 9 small layouts (TypeOK, RingHom, OnlyZeroDiv)",
                   "MC_WrapVM", "MC_WrapVM.cfg", "int")]
 DESIGNS = {
-    "C01": [D_SEM] + D_MUL + D_DIV, "C02": [D_SEM] + D_MUL[:2], "C03": [D_SEM] + D_CMP, "C04": [D_SEM], "C06": [D_SEM],
+    "C01": [D_SEM] + D_MUL + D_DIV, "C02": [D_SEM] + D_MUL[:2], "C03": [D_SEM] + D_CMP, "C04": [D_SEM],
+    "C06": [D_SEM, d_tlc("MC_Round: rounding methods as coded (masks, 0/1 integer-bit special cases) = exact roundings, every value, "
+                         "68 layouts of widths 2..6 and 8", "MC_Round", "MC_Round.cfg", "int")],
     "C07": [D_SEM] + D_EUCLID, "C09": D_FMT,
     "C08": [d_tlc("MC_Parse: tokeniser as coded = grammar, every string up to length 5 over 10 symbols x 4 radices", "MC_Parse",
                   "MC_Parse_5.cfg", "int")], "C11": D_MUL[2:6], "C18": D_WRAPVM,
